@@ -139,6 +139,14 @@ def snapshot_state(ns, modules):
     return snap
 
 
+def _same(a, b):
+    """a == b for containers whose items may not compare to a plain truth value (numpy arrays): then 'not the same'"""
+    try:
+        return bool(a == b)
+    except Exception:
+        return False
+
+
 def reset_state(ns):
     """restore those containers in place: state must not leak from one explored path (= one process) into the next"""
     import copy
@@ -148,7 +156,7 @@ def reset_state(ns):
         if cur is None or type(cur) is not type(v):
             vars(mod)[k] = copy.deepcopy(v)
             continue
-        if cur == v:
+        if _same(cur, v):
             continue
         if isinstance(cur, (dict, set)):
             cur.clear()
@@ -158,10 +166,10 @@ def reset_state(ns):
     for f, d in getattr(ns, '_state_defaults', []):
         cur = f.__defaults__
         for c, v in zip(cur, d):
-            if type(v) in (dict, set) and c != v:
+            if type(v) in (dict, set) and not _same(c, v):
                 c.clear()
                 c.update(copy.deepcopy(v))
-            elif type(v) is list and c != v:
+            elif type(v) is list and not _same(c, v):
                 c[:] = copy.deepcopy(v)
     for f in getattr(ns, '_state_caches', []):
         try:
